@@ -15,6 +15,9 @@ Oracle = the statement through the public API:
                    with all modes: bins with |m|<nlx'/2 and |n|<nly'/2 agree, bins with
                    |m|>nlx'/2 or |n|>nly'/2 vanish (nl' = min(nl, size), per axis); the bins at the
                    cut-off itself are not constrained by the statement and are not compared;
+  registration   : the content sits on the returned grid: dispersion flux at level 0 equals the
+                   surface flux cell by cell (all modes retained), and the footprint for a tower
+                   on a node reproduces the forward solution at that node (sum q0*footprint);
   clamp          : modes=(huge, b) equals modes=(nxe, b) whenever the latter is accepted (for an
                    odd padded size nxe the reference is the next even count nxe+1, also "more than
                    the grid holds"); likewise for y and for both axes.
@@ -35,8 +38,9 @@ S = Suite(
           "17 (1 and 2 cells, incommensurate)} (+ 30 commensurate, 24 in thorough), per-axis mode counts "
           "{4, 6, largest even below the padded size, the padded size if even, next even above, 64} "
           "(+ one odd count), footprint and dispersion mode, one hand-built anisotropic column "
-          "(two in thorough), double precision; misregistration that keeps the shape is only "
-          "observed at halo=0 (low-pass kind)",
+          "(two in thorough), double precision; content registration (level-0 flux == source; "
+          "sum q0*footprint == forward value at the tower node) for every size parity x halo x "
+          "clamped / exact / truncated accepted mode count",
     rule="returned => conc.shape==flx.shape==(ny,nx) and |X-i*dx|,|Y-j*dy| <= 1e-12*extent; spectra "
          "and fields compared at tol = max(1e-9, 300*eps*exp(G)) of the reference maximum",
 )
@@ -167,6 +171,56 @@ def low_pass(nx, ny, dx, dy, modes, footprint, im, jm, level, prof, seed, bg):
         measured=max(worst_in, worst_out) / tol)
 
 
+@S.kind("registration")
+def registration(nx, ny, dx, dy, halo, modes, i0, j0, level, prof, seed):
+    """'correctly registered result ... never a silently misaligned field', for every accepted
+    (size parity, halo, mode count), observed where the statement pins the content to the grid:
+      * dispersion mode, level 0: the vertical flux at the surface IS the surface flux, cell by
+        cell (all modes retained: exactly; the check is skipped when the request truncates);
+      * footprint mode, tower on node (i0, j0): the weights are registered on the source grid,
+        i.e. sum_cells q0 * footprint equals the forward solution at that node (flux and
+        concentration) - for any retained mode set, both sides use the same one.
+    A rejected combination (exception) is an accepted outcome."""
+    z, profiles = make_profiles(prof)
+    q0 = np.random.default_rng(seed).random((ny, nx)) - 0.3
+    nxe, nye = padded(nx, ny, dx, dy, halo)
+    tag = "%dx%d (padded %dx%d) halo=%s modes=%s tower node (%d,%d)" % (nx, ny, nxe, nye, halo, modes,
+                                                                         j0, i0)
+    try:
+        X, Y, cD, fD = _solve(q0, z, profiles, nx, ny, dx, dy, [0, level], modes, halo, (0.0, 0.0),
+                              False)
+        _, _, cF, fF = _solve(q0, z, profiles, nx, ny, dx, dy, level, modes, halo,
+                              (i0 * dx, j0 * dy), True)
+    except Exception as e:
+        return Verdict(True, "%s raised %s (not an accepted combination)" % (tag, type(e).__name__),
+                       nontrivial=False)
+    if cD.shape != (2, ny, nx) or fD.shape != (2, ny, nx) or cF.shape != (ny, nx) or fF.shape != (ny, nx):
+        return Verdict(True, "%s: shapes %s %s (see shape-or-raise)" % (tag, cD.shape, cF.shape),
+                       nontrivial=False)
+    tol = tolerance(growth(z, profiles, level, nxe, nye, dx, dy))
+    parity = "odd" if (nxe % 2 or nye % 2) else "even"
+    full = modes[0] >= nxe and modes[1] >= nye
+    e0 = 0.0
+    if full:
+        e0 = float(np.max(np.abs(fD[0] - q0))) / float(np.max(np.abs(q0)))
+        if e0 > tol:
+            return Verdict(False, "%s: dispersion flux at level 0 differs from the surface flux by "
+                           "%.2e of its maximum (tol %.1e)" % (tag, e0, tol),
+                           key="surface-flux-misregistered-%s-grid" % parity, measured=e0 / tol)
+    sf = max(float(np.max(np.abs(fD[1]))), 1e-300)
+    sc = max(float(np.max(np.abs(cD[1]))), 1e-300)
+    ef = abs(float(np.sum(fF * q0)) - float(fD[1][j0, i0])) / sf
+    ec = abs(float(np.sum(cF * q0)) - float(cD[1][j0, i0])) / sc
+    h = max(nx * dx, ny * dy) if halo is None else float(halo)
+    comm = (int(h / dx) * dx == h) and (int(h / dy) * dy == h)
+    hk = "halo-zero" if h == 0.0 else ("halo-commensurate" if comm else "halo-incommensurate")
+    ok = max(ef, ec) <= tol
+    return Verdict(ok, "%s: level-0 flux vs source %.2e; sum(q0*footprint) vs forward value at the "
+                   "node: flux %.2e conc %.2e of the field maximum, tol %.1e" % (tag, e0, ef, ec, tol),
+                   key="footprint-misregistered-%s-%s-grid" % (hk, parity),
+                   measured=max(ef, ec, e0) / tol)
+
+
 @S.kind("clamp")
 def clamp(nx, ny, dx, dy, halo, footprint, which, a, b, big, level, prof, seed):
     """which='x': modes=(big, b) vs (nxe', b); 'y': (a, big) vs (a, nye'); 'xy': (big, big) vs
@@ -268,6 +322,25 @@ def generate(tier, rng):
                                 nx=nx, ny=ny, dx=DX, dy=DY, modes=[mx, my], footprint=fp,
                                 im=rng.randint(0, nx - 1), jm=rng.randint(0, ny - 1), level=lev,
                                 prof=prof, seed=rng.randint(0, 2 ** 31 - 1), bg=rng.choice([0.0, 1.0]))
+    # 2b. registration of the content: every size parity x halo x accepted mode count
+    for prof in profs:
+        lev = prof["nz"] // 2
+        for nx in sizes:
+            for ny in sizes:
+                for halo in halos:
+                    nxe, nye = padded(nx, ny, DX, DY, halo)
+                    opts = [[64, 64]]
+                    if nxe % 2 == 0 and nye % 2 == 0:
+                        opts += [[nxe, nye], [nxe - 2, max(nye - 4, 2)]]
+                    elif nxe % 2 == 0:
+                        opts += [[nxe - 2, 64]]
+                    elif nye % 2 == 0:
+                        opts += [[64, nye - 2]]
+                    for modes in opts:
+                        yield "registration", dict(
+                            nx=nx, ny=ny, dx=DX, dy=DY, halo=halo, modes=modes,
+                            i0=rng.randint(0, nx - 1), j0=rng.randint(0, ny - 1), level=lev,
+                            prof=prof, seed=rng.randint(0, 2 ** 31 - 1))
     # 3. clamp, per axis and both
     for prof in profs:
         lev = prof["nz"] // 2
